@@ -181,7 +181,10 @@ func (b *assignmentBuilder) structFieldAndStructGettersAndFields(lhs bmodel.Node
 			}
 		}
 
-		if c, ok := b.castNode(lhs.ExprType(), rhs); ok {
+		// A struct that has explicit notations on its members is copied member by member
+		// so that those notations are honoured.
+		descend := util.IsStructType(lhs.ExprType()) && util.IsStructType(rhs.ExprType()) && b.hasNotationUnder(lhs)
+		if c, ok := b.castNode(lhs.ExprType(), rhs); ok && !descend {
 			rhsExpr := c.AssignExpr()
 			logger.Printf("%v: assignment found: %v = %v", methodPosStr, lhsExpr, rhsExpr)
 			a = gmodel.SimpleField{LHS: lhsExpr, RHS: rhsExpr, Error: c.ReturnsError()}
@@ -222,6 +225,39 @@ func (b *assignmentBuilder) structFieldAndStructGettersAndFields(lhs bmodel.Node
 
 	logger.Warnf("%v: no assignment for %v [%v]", methodPosStr, lhsExpr, b.imports.TypeName(lhs.ExprType()))
 	return gmodel.NoMatchField{LHS: lhsExpr}, nil
+}
+
+// hasNotationUnder returns true if a :skip, :conv, :map or :literal notation addresses a member
+// of the given struct-typed destination node.
+func (b *assignmentBuilder) hasNotationUnder(lhs bmodel.Node) bool {
+	path := lhs.MatcherExpr()
+	for _, converter := range b.opts.Converters {
+		if converter.Dst().IsUnder(path) {
+			return true
+		}
+	}
+	for _, mapper := range b.opts.NameMapper {
+		if mapper.Dst().IsUnder(path) {
+			return true
+		}
+	}
+	for _, mapper := range b.opts.TemplatedNameMapper {
+		if mapper.Dst().IsUnder(path) {
+			return true
+		}
+	}
+	for _, setter := range b.opts.Literals {
+		if setter.Dst().IsUnder(path) {
+			return true
+		}
+	}
+	skipped := false
+	bmodel.IterateStructFields(lhs, func(member bmodel.Node) (done bool) {
+		skipped = b.opts.ShouldSkip(member.MatcherExpr()) ||
+			(util.IsStructType(member.ExprType()) && b.hasNotationUnder(member))
+		return skipped
+	})
+	return skipped
 }
 
 // createWithConverter creates an assignment using the given field converter.
